@@ -7,6 +7,7 @@
      "unit"    every set of disjoint base pairs on the positions 0..NPos-1 (the empty set, nested,
                crossing, multiply crossing ones), default scores, in every presentation of Variants
                and every such set on 0..NPosOne-1 in presentation 2 only
+               and every set that pairs all of the positions 0..NPosPerfect-1, rows sorted
      "scored"  every such set on 0..NPosScored-1 with every score vector over ScoreVals
      "short"   every such set on 0..NPosScored-1 with a strand one base too short (no maximum order)
    "unit" and "scored" with max_pseudoknot_order = None and every value of MaxOrderVals.
@@ -16,7 +17,7 @@
    The states of phase 1 are the cases of S2: the real functions are called with `inp`, and
    must return `res`. *)
 EXTENDS Pseudoknot
-CONSTANTS NPos, NPosOne, NPosScored, ScoreVals, MaxOrderVals, Variants
+CONSTANTS NPos, NPosOne, NPosPerfect, NPosScored, ScoreVals, MaxOrderVals, Variants
 VARIABLES inp, res, phase
 vars == <<inp, res, phase>>
 
@@ -26,6 +27,11 @@ MatchingsOf(P) ==
   ELSE LET a == Min(P)  rest == P \ {a} IN
        MatchingsOf(rest) \cup UNION {{{<<a, b>>} \cup m : m \in MatchingsOf(rest \ {b})} : b \in rest}
 Matchings(n) == MatchingsOf(0..(n - 1))
+RECURSIVE PerfectOf(_)
+PerfectOf(P) ==
+  IF P = {} THEN {{}}
+  ELSE LET a == Min(P)  rest == P \ {a} IN UNION {{{<<a, b>>} \cup m : m \in PerfectOf(rest \ {b})} : b \in rest}
+PerfectMatchings(n) == IF n % 2 = 0 THEN PerfectOf(0..(n - 1)) ELSE {}
 
 Stretch(p, v) == CASE v = 1 -> 2 * p + 1
                    [] v = 2 -> p + 5 * (p \div 3)
@@ -54,6 +60,8 @@ Init ==
           \E bp \in {Present(m, v)} : inp = Case("unit", bp, <<>>, maxo, StrandLen(bp, v))
      \/ \E m \in Matchings(NPosOne) : \E maxo \in MaxOrders :
           \E bp \in {Present(m, 2)} : inp = Case("unit", bp, <<>>, maxo, StrandLen(bp, 2))
+     \/ \E m \in PerfectMatchings(NPosPerfect) : \E maxo \in MaxOrders :
+          \E bp \in {Present(m, 0)} : inp = Case("unit", bp, <<>>, maxo, StrandLen(bp, 0))
      \/ \E m \in Matchings(NPosScored) \ {{}} : \E maxo \in MaxOrders :
           \E bp \in {Present(m, 2)} : \E sc \in [1..Len(bp) -> ScoreVals] :
              inp = Case("scored", bp, <<sc>>, maxo, StrandLen(bp, 2))
